@@ -4,6 +4,7 @@ import os
 import logging
 import copy
 import json
+import collections
 
 from tableschema_sql import Storage
 from sqlalchemy import create_engine
@@ -80,7 +81,7 @@ class SQLDumper(DumperBase):
         self.batch_size = options.get('batch_size', 1000)
         self.use_bloom_filter = options.get('use_bloom_filter', True)
 
-    def normalize_for_engine(self, dialect, resource, schema_descriptor):
+    def normalize_for_engine(self, dialect, resource, schema_descriptor, originals):
         actions = {}
         for field in schema_descriptor['fields']:
             if field['type'] in ['array', 'object']:
@@ -88,6 +89,10 @@ class SQLDumper(DumperBase):
                 actions.setdefault(field['name'], []).extend(OBJECT_FIXERS[dialect])
 
         for row in resource:
+            # the writer gets (and converts in place) a copy,
+            # the row itself continues downstream unchanged
+            originals.append(row)
+            row = dict(row)
             for name, action_list in actions.items():
                 for action in action_list:
                     row[name] = action(row.get(name))
@@ -128,19 +133,21 @@ class SQLDumper(DumperBase):
                     update_keys = schema_descriptor.get('primaryKey', [])
             logging.info('Writing to DB %s -> %s (mode=%s, keys=%s)',
                          resource_name, table_name, mode, update_keys)
-            return map(self.get_output_row,
+            # the writer reports every row exactly once, in the order it got them
+            originals = collections.deque()
+            return map(lambda written: self.get_output_row(originals.popleft(), written),
                        storage.write(
                            '',
                            self.normalize_for_engine(self.engine.dialect.name,
-                                                     resource, schema_descriptor),
+                                                     resource, schema_descriptor, originals),
                            keyed=True, as_generator=True,
                            update_keys=update_keys,
                            buffer_size=self.batch_size,
                            use_bloom_filter=self.use_bloom_filter,
                        ))
 
-    def get_output_row(self, written):
-        row, updated, updated_id = written.row, written.updated, written.updated_id
+    def get_output_row(self, row, written):
+        updated, updated_id = written.updated, written.updated_id
         if self.updated_column:
             row[self.updated_column] = updated
         if self.updated_id_column:
